@@ -309,14 +309,14 @@ func RunRandom(cfg RandomConfig) (Result, Script) {
 
 // ---------- systematic strategies of one Byzantine dealer (binding B2, grid mode) ----------
 
-// GridStrategies = 5 (vector) x 5 (share to the first honest participant) x 2 (share to the second) x 4 (early answer)
+// GridStrategies = 5 (vector) x 7 (share(s) to the first honest participant) x 2 (share to the second) x 4 (early answer)
 // x 6 (answer policy) x 2 (own complaints); three delivery orders on top.
-const GridStrategies = 5 * 5 * 2 * 4 * 6 * 2
+const GridStrategies = 5 * 7 * 2 * 4 * 6 * 2
 
 func (s *Sim) gridScript(grid int, b int) ByzScript {
 	k := grid % GridStrategies
 	dig := func(base int) int { d := k % base; k /= base; return d }
-	vecB, sh1, sh2, early, policy, compl := dig(5), dig(5), dig(2), dig(4), dig(6), dig(2)
+	vecB, sh1, sh2, early, policy, compl := dig(5), dig(7), dig(2), dig(4), dig(6), dig(2)
 	bs := ByzScript{Pv: map[string][]Msg{}}
 	isDealer := false
 	for _, d := range s.dealers {
@@ -370,6 +370,10 @@ func (s *Sim) gridScript(grid int, b int) ByzScript {
 				bs.Pv[ps] = []Msg{{"share", "ok", "P2", -1}}
 			case 4:
 				bs.Pv[ps] = []Msg{{"share", "ok", "P1", -1}, {"share", "ok", "P2", -1}}
+			case 5: // a malformed private message, then a well-formed share of another polynomial (after the complaint, maybe after its answer)
+				bs.Pv[ps] = []Msg{{"share", "bad", "none", -1}, {"share", "ok", "P2", -1}}
+			case 6: // a malformed private message, then the right share
+				bs.Pv[ps] = []Msg{{"share", "bad", "none", -1}, {"share", "ok", "P1", -1}}
 			}
 		}
 	}
